@@ -128,6 +128,9 @@ class ModbusBaseRequestHandler(asyncio.BaseProtocol):
                 data = await self._recv_()  # this is an asyncio.Queue await, it will never fail
                 if isinstance(data, tuple):
                     data, *addr = data  # addr is populated when talking over UDP
+                    # a datagram is a whole message: nothing left over from an
+                    # earlier datagram (of any peer) may be prepended to it
+                    self.framer.resetFrame()
                 else:
                     addr = (None,) # empty tuple
 
